@@ -256,6 +256,9 @@ var CmTemplates = []string{
 	"S@\nsynthetic @ \"a\" @; @\n",
 	"S@\nsynthetic.base64 @ \"a\" @; @\n",
 	"S@\nunset @ req.http.a @; @\n",
+	// the regular-expression form of case, and a compound condition
+	"S@\nswitch (req.http.a) {\n  case @ ~ \"^x\" @: @\n    esi;\n    break;\n  default:\n    esi;\n    break;\n}\n",
+	"S@\nif @ (@ req.http.a && req.http.b @) @ {\n  esi;\n}\n",
 }
 
 // cmRender fills placeholder number `at` (and `at2` if >= 0) of template t with
@@ -505,6 +508,75 @@ func VerifLayout() {
 			}
 			nondet.Assert(same, "C15: the comments of the formatted text differ from the comments of the input")
 		}
+	}
+	nondet.Cover("checked")
+}
+
+// ---- expression shapes: operands in prefix, grouped, negated-group, nested
+// group and negative-literal form, joined by one or two symbolic operators
+// (comparison, logical, match, explicit + and juxtaposition), in a set
+// statement, an if condition and a functional subroutine's return, under
+// symbolic concatenation / line-width / condition-breaking / parenthesis
+// options.  Sources the parser refuses are outside the claim.
+
+var ExOperands = []string{"req.http.a", "\"s\"", "-1", "!req.http.b", "(req.http.c == \"1\")", "!(req.http.d && req.http.e)", "(req.http.c \"x\")", "((req.http.f))", "1"}
+var ExOps = []string{"==", "!=", "&&", "||", "+", "", "~"}
+
+func VerifExprFormat() {
+	n := nondet.Param("OPS")
+	names := []string{"a", "b", "c"}
+	var sb strings.Builder
+	for k := 0; k <= n; k++ {
+		if k > 0 {
+			op := ExOps[nondet.Choice("op"+names[k], len(ExOps))]
+			if op == "" {
+				sb.WriteString(" ")
+			} else {
+				sb.WriteString(" " + op + " ")
+			}
+		}
+		sb.WriteString(ExOperands[nondet.Choice("x"+names[k], len(ExOperands))])
+	}
+	expr := sb.String()
+	var src string
+	switch nondet.Choice("context", 3) {
+	case 0:
+		src = "sub vcl_recv {\n  set req.http.x = " + expr + ";\n}\n"
+	case 1:
+		src = "sub vcl_recv {\n  if (" + expr + ") {\n    esi;\n  }\n}\n"
+	default:
+		src = "sub f BOOL {\n  return " + expr + ";\n}\n"
+	}
+	mode := nondet.Param("MODE")
+	c := &config.FormatConfig{
+		IndentWidth: 2, TrailingCommentWidth: 1, IndentStyle: "space", CommentStyle: "none",
+		LineWidth:                  []int{120, -1, 24}[nondet.Choice("width", 3)],
+		ExplicitStringConcat:       nondet.Bool("explicit"),
+		BreakCompoundConditions:    nondet.Bool("breakcond"),
+		ReturnStatementParenthesis: nondet.Bool("retparen"),
+	}
+	v1, err := fpParse(src)
+	nondet.Observe("src", src)
+	if err != nil {
+		nondet.Cover("not-a-program")
+		return
+	}
+	o1, ok := fpFormat(v1, c)
+	nondet.Assert(ok, "the formatter returns no output for a parseable file")
+	if !ok {
+		return
+	}
+	v1b, _ := fpParse(src)
+	v2, err := fpParse(o1)
+	nondet.Assert(err == nil, "C03: the formatted text does not parse")
+	if err != nil {
+		return
+	}
+	if mode == 0 {
+		nondet.Assert(astcmp.Stmts(v1b.Statements, v2.Statements, astcmp.Mode{Format: true, Literals: true}), "C03: formatting changes the expression: "+astcmp.Why)
+	} else {
+		o2, ok := fpFormat(v2, c)
+		nondet.Assert(ok && o2 == o1, "C14: formatting the formatter's own output changes it")
 	}
 	nondet.Cover("checked")
 }
